@@ -323,6 +323,9 @@ func init() {
 
 func runC08(c *CaseCtx) (res CaseResult) {
 	r := caseRand(c.Seed, "C08", c.Idx)
+	if c.Idx%25 == 11 {
+		return runC08IfaceTwin(c, r)
+	}
 	rc := genRedefine(r)
 	s := rc.S
 	res.Key = rc.String()
